@@ -114,6 +114,9 @@ def run_conversation(rec, case):
                        seed=sched_seed, yield_prob=0.3 if sched_seed else 0.0,
                        request_timeout=5, plain_handlers=plain,
                        legacy_disconnect=legacy, **extra)
+    if kind == 'A':
+        w.srv.write_error_kind = ['disconnected', 'reset', 'pipe', 'timeout',
+                                  'unreachable'][case['i'] % 5]
     desc = 'client=%s%s%s%s transport=%s probe=%s extras=%d' % (
         'Client' if kind == 'T' else 'AsyncClient' if kind == 'A' else
         'AsyncClient(real aiohttp session)',
